@@ -1396,6 +1396,55 @@ def rule_dual(ctx, m):
                   % (b, a, diffs[0][0] if diffs else '', diffs[0][1] if diffs else '', len(diffs)), fb.line)
 
 
+def rule_wps_end_scans(ctx, m, affinity=False):
+    """End relaxation of the cost-matrix writers: the last column is scanned over the last psi_1e + 1 rows, the last row over the last psi_2e + 1 columns
+    -- one candidate per admissible end point, not one more.  Decided on the trip count of the two descending scans (`for (v = A; v > B; v--)`: A - B), told
+    apart by the step of the position they walk (`wpsi -= p.width` = down a column, `wpsi -= 1` = along a row)."""
+    def atom(x):
+        if x == ('var', 'l1'):
+            return 'L1'
+        if x == ('var', 'l2'):
+            return 'L2'
+        if x[0] == 'attr' and x[2] in ('psi_1e', 'psi_2e'):
+            return 'PSI1E' if x[2] == 'psi_1e' else 'PSI2E'
+        return None
+    n = 0
+    for fname in (AFF_WRITERS if affinity else WRITERS):
+        f = m.cfunc(fname)
+        if f is None:
+            raise AnalysisError('anchor vanished: C function %s' % fname)
+        for lp in walk_stmts(f.body):
+            if lp.k != 'loop' or lp.cond is None or len(lp.inc) != 1 or len(lp.init) != 1:
+                continue
+            inc, ini = lp.inc[0], lp.init[0]
+            if not (inc.k == 'assign' and inc.target[0] == 'var' and inc.value == ('bin', '-', inc.target, ('num', 1)) and ini.k == 'assign' and ini.target == inc.target):
+                continue
+            v = inc.target
+            o = orient(lp.cond, v)
+            if o is None or o[0] not in ('>', '>='):
+                continue
+            steps = [aug_rhs(t) for t in lp.body if t.k == 'assign' and t.target == ('var', 'wpsi') and t.value[0] == 'bin' and t.value[1] == '-' and t.value[2] == t.target]
+            steps = [t.value[3] for t in lp.body if t.k == 'assign' and t.target == ('var', 'wpsi') and t.value[0] == 'bin' and t.value[1] == '-' and t.value[2] == t.target]
+            if len(steps) != 1:
+                continue
+            role = 'column' if steps[0] == ('attr', ('var', 'p'), 'width') else 'row' if steps[0] == ('num', 1) else None
+            if role is None:
+                continue
+            try:
+                a_t, b_t = sym.from_ir(norm_minmax(ini.value), atom=atom), sym.from_ir(norm_minmax(o[2]), atom=atom)
+            except Exception:  # noqa
+                ctx.undecided('R-PSI', '%s end scan of the last %s' % (fname, role), 'bounds are not terms over the lengths and psi')
+                continue
+            count = sub(a_t, b_t) if o[0] == '>' else add(sub(a_t, b_t), C(1))
+            want = add(V('PSI1E' if role == 'column' else 'PSI2E'), C(1))
+            n += 1
+            ctx.check(count == want, 'R-PSI', f.file, fname, 'end scan of the last %s' % role,
+                      'the end relaxation scans %s cells of the last %s; with psi_%se = p exactly p + 1 end points are admissible (%s)'
+                      % (sym.show(count), role, '1' if role == 'column' else '2', sym.show(want)), lp.line)
+    ctx.count('end-relaxation scans', n)
+    return n
+
+
 # ------------------------------------------------------------------------------------------ writer epilogue domains
 def rule_wps_epilogue(ctx, m):
     """The compact writers return a distance in the requested domain and compare it with max_dist in one domain;
@@ -1504,10 +1553,18 @@ def analyse_reader(m, fname, pvar_is_pointer):
                 for v in assigned_vars(s.then):
                     env[v] = e2.get(v, ('var', v + '@g'))
             else:
+                if s.k == 'if' and not out:
+                    # the copy of the top (border) row in front of the regions: `for (ci = ..; ci < HI; ci++) full[..] = wps[wpsi]; wpsi++`
+                    for k_, t in enumerate(s.then):
+                        if t.k == 'for' and any(u.k == 'assign' and u.target[0] == 'idx' and u.target[1] == ('var', 'full') and reads_of(u.value, 'wps') for u in t.body):
+                            e3 = Exec(havoc_tag='rd').run(s.then[:k_], env.copy())
+                            if e3 is not None:
+                                f.top_copy = (subst_expr(t.lo, e3) if t.lo is not None else None, subst_expr(t.hi, e3), t)
                 r = Exec(havoc_tag='rd').run([s], env)
                 if r is None:
                     break
             i += 1
+    f.top_copy = None
     visit(f.body, env)
     symexec.STRUCTS.clear()
     symexec.ARRAYS.clear()
@@ -1587,7 +1644,25 @@ def rule_wps_readers(ctx, m, affinity=False):
         if affinity != ('affinity' in fname) and fname.startswith('dtw_expand'):
             continue
         f, rregs, amap = analyse_reader(m, fname, pptr)
-        ctx.check(len(rregs) == 4, 'R-MAP', f.file, fname, 'reader regions', 'expected four region loops (A, B, C, D) in %s, found %d' % (fname, len(rregs)), f.line)
+        if len(rregs) != 4:
+            # a reader that no longer walks the four regions row by row (a region replaced by a closed form) cannot be compared loop by loop: no verdict
+            ctx.undecided('R-MAP', '%s reader regions' % fname, 'expected four region loops (A, B, C, D), found %d: the reader was restructured' % len(rregs))
+        if fname.startswith('dtw_expand_wps_slice') and getattr(f, 'top_copy', None) is not None:
+            # the border row of the slice: columns up to min(ce - 1, width - 1, len2) are copied (position q of row 0 is matrix column q)
+            lo_e, hi_e, tl = f.top_copy
+            try:
+                hi_t = sym.from_ir(norm_minmax(hi_e), atom=amap)
+            except Exception:  # noqa
+                hi_t = None
+            if hi_t is None:
+                ctx.undecided('R-MAP', '%s top row copy' % fname, 'bound %s is not a term' % fmt(hi_e)[:80])
+            else:
+                ces = tmax(sub(V('ce'), C(1)), C(0))
+                want = tmin(ces, tmin(sub(V('P_width'), C(1)), V('L2')))
+                box0 = {'L1': range(1, 6), 'L2': range(1, 6), 'W': range(0, 5), 'rb': range(0, 2), 're': (3, 6), 'cb': range(0, 4), 'ce': (1, 3, 6)}
+                r = decide_equal(pdefs, hi_t, want, [V('ce'), V('cb')], extra_atoms=('ce', 'cb'), box=box0)
+                _report(ctx, r, 'R-MAP', f.file, fname, 'top row copy bound', '%s top row copy bound' % fname,
+                        'the border row of the slice must be copied up to column min(ce - 1, width - 1, len2); the loop stops at %s' % sym.show(hi_t)[:100], tl.line)
         if len(rregs) != 4:
             continue
         for RR, WR in zip(rregs, wregs):
